@@ -7,8 +7,10 @@ Session invariant, part 9: histories, and the witnesses (non-vacuity) of parts 1
 
 * `runAll`, `runAll_sessAbs`: a history run by the session from a state that satisfies the invariant.
 * `Plain`, `sessOK_plain`: histories of CREATE DATABASE / USE / SHOW DATABASES / SELECT / DELETE / UPDATE
-  statements (on names other than the two catalog tables, with SET literals a Go program can hold) meet
-  the side conditions `SessOK` in EVERY session state - whatever is or is not selected.
+  statements (on names other than the two catalog tables, with SET literals a Go program can hold; a
+  SELECT with a select list of a shape the parser builds) meet the side conditions `SessOK` in EVERY
+  session state - whatever is or is not selected.  (CHANGED with the session model evaluating SELECT:
+  `Plain (.select q)` was `True`, it now is `SelectSide (.select q)`.)
 * `dbFlushed_tableDB`, `room_insert56`, `sessT`: the database `CREATE DATABASE; CREATE TABLE t (a INT)`
   produces (computed by the model, BaseCase2), as a closed database and inside a session.
 -/
@@ -33,9 +35,11 @@ theorem runAll_sessAbs : ∀ (sts : List Sql.Stmt) (s : Sess) (w : String → Sp
     · exact hnp
     · exact houts o ho
 
-/-- statements whose side conditions hold in every session state -/
+/-- statements whose side conditions hold in every session state (for a SELECT: the select list has a
+shape the parser builds and the FROM clause names user tables - `SelectSide`) -/
 def Plain : Sql.Stmt → Prop
-  | .createDatabase _ | .use _ | .showDatabases | .select _ => True
+  | .createDatabase _ | .use _ | .showDatabases => True
+  | .select q => ((∃ a, q.list = [⟨.star, a⟩]) ∨ Exec.isStar q.list = false) ∧ UserTables q
   | .delete t _ => t ≠ sysPages ∧ t ≠ sysSchema
   | .update t sets _ => (t ≠ sysPages ∧ t ≠ sysSchema) ∧ ∀ p ∈ sets, ∀ l, p.2 = .lit l → Tuple.ValidVal (Engine.litToVal l)
   | _ => False
@@ -43,12 +47,12 @@ def Plain : Sql.Stmt → Prop
 theorem stmtSide_plain (s : Sess) (st : Sql.Stmt) (h : Plain st) : StmtSide s st := by
   intro n db _ _ sdb pt sch tbls _
   cases st with
-  | createDatabase n => exact ⟨trivial, trivial, trivial⟩
-  | use n => exact ⟨trivial, trivial, trivial⟩
-  | showDatabases => exact ⟨trivial, trivial, trivial⟩
-  | select q => exact ⟨trivial, trivial, trivial⟩
-  | delete t w => exact ⟨fun _ => h, trivial, trivial⟩
-  | update t sets w => exact ⟨fun _ => h.1, trivial, h.2⟩
+  | createDatabase n => exact ⟨trivial, trivial, trivial, trivial⟩
+  | use n => exact ⟨trivial, trivial, trivial, trivial⟩
+  | showDatabases => exact ⟨trivial, trivial, trivial, trivial⟩
+  | select q => exact ⟨trivial, trivial, trivial, h⟩
+  | delete t w => exact ⟨fun _ => h, trivial, trivial, trivial⟩
+  | update t sets w => exact ⟨fun _ => h.1, trivial, h.2, trivial⟩
   | createTable n c => exact h.elim
   | insert t c r => exact h.elim
 
@@ -123,7 +127,7 @@ theorem stmtSide_sessT : StmtSide sessT (.insert tname [] [[.int 5], [.int 6]]) 
     exact (Option.some.inj hg).symm
   subst hdb
   obtain ⟨rfl, rfl, htr⟩ := dbInv_tableDB_unique hi
-  refine ⟨fun _ => tname_ne_sys, ⟨room_insert56.1, ?_⟩, trivial⟩
+  refine ⟨fun _ => tname_ne_sys, ⟨room_insert56.1, ?_⟩, trivial, trivial⟩
   intro tr schema hm hs
   have := htr tr hm
   subst this
